@@ -103,11 +103,9 @@ theorem int_roundtrip (Γ : PEnv) (h : NumeralsFree Γ) (hl : Γ.intArith.getD t
     have hk : ((-n).toNat : Int) = -n := by omega
     have hv : rdVal Γ true (.list [.atom "-", natAtom (-n).toNat]) = .ok (.term (Term.int n), Γ.mgr) := by
       rw [rdVal]
-      · simp only [hp, ht, fnOfEntry, rdArgs, rdVal_nat Γ h hl false, applyFn, termsOf, Option.map,
-          applySpecial, typeOf_int', Except.map]
-        simp [Term.int, hk]
-      · intro b bs body hc; simp at hc
-      · intro hd tl tl1 hc; simp [natAtom] at hc
+      simp only [hp, ht, fnOfEntry, rdArgs, rdVal_nat Γ h hl false, applyFn, termsOf, Option.map,
+        applySpecial, typeOf_int', Except.map]
+      simp [Term.int, hk]
     rw [hv]
   · simp only [hn, if_false]
     have hk : (n.toNat : Int) = n := by omega
